@@ -9,9 +9,11 @@ import (
 	"encoding/binary"
 	"fmt"
 	"runtime"
+	"runtime/debug"
 	"sort"
 	"sync"
 	"sync/atomic"
+	"syscall"
 	"time"
 
 	"github.com/miekg/dns"
@@ -29,9 +31,15 @@ const (
 	findArcount  = "sig0-verify-arcount-256"    // DESIGN §4 #4
 	findPadded   = "sig0-ecdsa-padded"          // DESIGN §4 #8
 	findKeyAlg   = "sig0-key-algorithm-ignored" // KEY algorithm number is not compared with the SIG's
+	findAlg7     = "sig0-verify-alg7-refused"   // round 7: Sign signs with algorithm 7, Verify has no case for it
+	findTag0     = "sig0-keytag-zero-refused"   // round 7: a key whose key tag is 0 is taken for "key tag not set"
+	findSpelling = "sig0-verify-owner-spelling" // round 7: Verify compares the KEY owner as text with the decoder's spelling of the signer
 )
 
-var sigAlgs = []uint8{ref.AlgRSASHA1, ref.AlgRSASHA256, ref.AlgRSASHA512, ref.AlgECDSAP256, ref.AlgECDSAP384, ref.AlgEd25519}
+// every algorithm number SIG.Sign signs with (dnssec.go sign() and AlgorithmToHash): 5, 7, 8, 10, 13, 14, 15
+var sigAlgs = []uint8{ref.AlgRSASHA1, ref.AlgRSASHA1NSEC3, ref.AlgRSASHA256, ref.AlgRSASHA512, ref.AlgECDSAP256, ref.AlgECDSAP384, ref.AlgEd25519}
+
+var rsaAlgs = []uint8{ref.AlgRSASHA1, ref.AlgRSASHA1NSEC3, ref.AlgRSASHA256, ref.AlgRSASHA512}
 
 // Mut is one generated mutation of the signed buffer.
 type Mut struct {
@@ -64,11 +72,16 @@ type sigCase struct {
 	RdLens      []int // extra RDLENGTH values tried on the SIG record (besides the systematic sweep)
 	Sample      []int // bit positions (reduced modulo the signed length) flipped in addition, for messages too long to enumerate
 	Muts        []Mut
+	// round 7 (octet strings, not Go strings: the spellings may hold raw octets >= 0x80, which JSON text cannot carry)
+	TagZero     bool     // the KEY's flags field is chosen so that the key tag of the KEY record is 0 (one key in 65536 has it by nature)
+	KeyOwner    []byte   // how the program spells the owner of the KEY handed to Verify (same name as Signer: raw octets, \c, \DDD); empty = Signer
+	SignerSpell []byte   // how the program spells SIG.SignerName for Sign (same name as SignerAs); empty = SignerAs
+	OwnerAlts   [][]byte // owners of KEYs holding the right key material that are (nearly but) not the signer's name: must be refused
 }
 
 func privFor(c sigCase) (crypto.PrivateKey, error) {
 	switch c.Alg {
-	case ref.AlgRSASHA1, ref.AlgRSASHA256, ref.AlgRSASHA512:
+	case ref.AlgRSASHA1, ref.AlgRSASHA1NSEC3, ref.AlgRSASHA256, ref.AlgRSASHA512:
 		return ref.RSAKey(c.KeySlot), nil
 	case ref.AlgECDSAP256, ref.AlgECDSAP384:
 		return ref.ECDSAKeyFromSeed(c.Alg, c.KeySeed)
@@ -78,16 +91,55 @@ func privFor(c sigCase) (crypto.PrivateKey, error) {
 	return nil, fmt.Errorf("algorithm %d not in the domain", c.Alg)
 }
 
+const hostKeyFlags = 0x0200 // RFC 2535 3.1.2: name type "host"; what SIG(0) keys usually carry
+
 func keyRR(owner string, alg uint8, pub crypto.PublicKey) (*dns.KEY, []byte) {
 	oct, _ := ref.KeyOctets(alg, pub)
 	k := &dns.KEY{DNSKEY: dns.DNSKEY{Hdr: dns.RR_Header{Name: owner, Rrtype: dns.TypeKEY, Class: dns.ClassINET, Ttl: 3600},
-		Flags: 0x0200, Protocol: 3, Algorithm: alg, PublicKey: base64.StdEncoding.EncodeToString(oct)}}
+		Flags: hostKeyFlags, Protocol: 3, Algorithm: alg, PublicKey: base64.StdEncoding.EncodeToString(oct)}}
 	return k, oct
+}
+
+// keyTagOf is the RFC 4034 appendix B key tag of the KEY record with these flags (protocol 3).
+func keyTagOf(flags uint16, alg uint8, keyOct []byte) uint16 {
+	return ref.KeyTag(ref.DNSKEYRdata(flags, 3, alg, keyOct))
+}
+
+// tagZeroFlags looks for a flags value under which the KEY record has key tag 0 (the flags are the
+// first 16-bit word of the checksummed RDATA, so all but a handful of keys have one). Nothing in
+// SIG(0) processing reads the flags, so every key becomes a member of the class "key tag 0".
+func tagZeroFlags(alg uint8, keyOct []byte) (uint16, bool) {
+	for d := 0; d < 65536; d++ {
+		f := uint16(hostKeyFlags + d)
+		if keyTagOf(f, alg, keyOct) == 0 {
+			return f, true
+		}
+	}
+	return hostKeyFlags, false
+}
+
+// caseKeyTag is the key tag of the KEY record the case uses (for the generator's exclusion).
+func caseKeyTag(c sigCase) (uint16, bool) {
+	priv, err := privFor(c)
+	if err != nil {
+		return 0, false
+	}
+	oct, err := ref.KeyOctets(c.Alg, ref.PublicOf(priv))
+	if err != nil {
+		return 0, false
+	}
+	return keyTagOf(hostKeyFlags, c.Alg, oct), true
 }
 
 func labelsOf(text string) (ref.Labels, error) {
 	n, _, err := wm.UnescName(text)
 	return ref.Labels(n), err
+}
+
+// spelledLabels reads a fully qualified presentation name written by a program (raw octets, \c, \DDD).
+func spelledLabels(text []byte) (ref.Labels, bool) {
+	n, fq, err := wm.UnescName(string(text))
+	return ref.Labels(n), err == nil && fq
 }
 
 // fullLimit: signed buffers up to this many octets get every single-bit flip and every truncation
@@ -174,12 +226,30 @@ func checkSig0(c sigCase) (err error) {
 	if (abs(c.IncOff) < 120 && c.IncOff != 0) || (abs(c.ExpOff) < 120 && c.ExpOff != 0) || (c.IncOff == 0 && c.ExpOff == 0) {
 		return nil
 	}
-	pub := ref.PublicOf(priv)
-	k, keyOct := keyRR(c.Signer, c.Alg, pub)
-	tag := ref.KeyTag(ref.DNSKEYRdata(k.Flags, 3, c.Alg, keyOct))
-	if tag == 0 {
-		tag = 1 // SIG.Sign refuses key tag 0 by contract
+	// round 7: the program's spelling of the KEY owner and of SIG.SignerName - the same names, octet for octet
+	keyOwner, signerText := c.Signer, c.SignerAs
+	if len(c.KeyOwner) > 0 {
+		l, ok := spelledLabels(c.KeyOwner)
+		if !ok || !wm.Name(l).Equal(wm.Name(signerL)) {
+			return nil
+		}
+		keyOwner = string(c.KeyOwner)
 	}
+	if len(c.SignerSpell) > 0 {
+		l, ok := spelledLabels(c.SignerSpell)
+		if !ok || !wm.Name(l).Equal(wm.Name(signerAsL)) {
+			return nil
+		}
+		signerText = string(c.SignerSpell)
+	}
+	pub := ref.PublicOf(priv)
+	k, keyOct := keyRR(keyOwner, c.Alg, pub)
+	if c.TagZero {
+		k.Flags, _ = tagZeroFlags(c.Alg, keyOct)
+	}
+	// the key tag is the one of the KEY record, whatever its value: 0 is a tag like any other (RFC 4034
+	// appendix B is a checksum over the RDATA; one key in 65536 has it)
+	tag := keyTagOf(k.Flags, c.Alg, keyOct)
 	now64 := time.Now().Unix()
 	now := uint32(now64)
 	incep, expir := uint32(now64+c.IncOff), uint32(now64+c.ExpOff)
@@ -196,7 +266,7 @@ func checkSig0(c sigCase) (err error) {
 		// (whatever Sign reports as signed has to be a message that can be sent and verifies)
 		if n <= 65600 && !c.RefSign {
 			sig := &dns.SIG{}
-			sig.KeyTag, sig.SignerName, sig.Algorithm = tag, c.SignerAs, c.Alg
+			sig.KeyTag, sig.SignerName, sig.Algorithm = tag, signerText, c.Alg
 			sig.Inception, sig.Expiration = incep, expir
 			out, serr := sig.Sign(ref.RandCheckedSigner{Inner: ref.DetSigner{Key: priv}}, c.Msg.Build())
 			pbt.Note(append([]byte("oversize|"), packed[:64]...), true, "signed-size>65535", fmt.Sprintf("alg=%d", c.Alg))
@@ -221,7 +291,11 @@ func checkSig0(c sigCase) (err error) {
 	}
 	nontrivial := c.Msg.Records() >= 1
 	classes := []string{fmt.Sprintf("alg=%d", c.Alg), window, fmt.Sprintf("compress=%v", c.Msg.Compress), sizeClass(len(packed)), hugeClass(c.Msg, len(packed)), fmt.Sprintf("signed-size>=65534:%v", len(packed)+sigRRLen >= 65534), extraClass(len(c.Msg.Extra)),
-		fmt.Sprintf("refsigned=%v", c.RefSign), fmt.Sprintf("signercase=%v", c.Signer != c.SignerAs)}
+		fmt.Sprintf("refsigned=%v", c.RefSign), fmt.Sprintf("signercase=%v", c.Signer != c.SignerAs),
+		fmt.Sprintf("keytag-zero=%v", tag == 0), fmt.Sprintf("key-owner-spelled-otherwise=%v", keyOwner != c.Signer), fmt.Sprintf("signer-name-spelled-otherwise=%v", signerText != c.SignerAs)}
+	if hasRaw8(keyOwner) {
+		classes = append(classes, "key-owner-with-raw-8bit-octets")
+	}
 	defer func() {
 		key := append([]byte(fmt.Sprintf("%d|%s|%d|%d|", c.Alg, c.SignerAs, c.IncOff, c.ExpOff)), packed...)
 		pbt.Note(key, nontrivial, classes...)
@@ -287,13 +361,13 @@ func checkSig0(c sigCase) (err error) {
 			sig.Signature = base64.StdEncoding.EncodeToString([]byte(c.PreOwner))
 			classes = append(classes, "preset-sig-template")
 		}
-		sig.KeyTag, sig.SignerName, sig.Algorithm = tag, c.SignerAs, c.Alg
+		sig.KeyTag, sig.SignerName, sig.Algorithm = tag, signerText, c.Alg
 		sig.Inception, sig.Expiration = incep, expir
 		m := c.Msg.Build()
 		var serr error
 		out, serr = sig.Sign(ref.RandCheckedSigner{Inner: signer}, m) // the signer insists on a usable entropy source, like a token shim would
 		if serr != nil {
-			return pbt.Errf("SIG.Sign failed: %v (alg %d, Compress=%v, packed message %d octets, %d additional records)", serr, c.Alg, c.Msg.Compress, len(packed), len(c.Msg.Extra))
+			return pbt.Errf("SIG.Sign failed: %v (alg %d, key tag %d, signer name written %q, Compress=%v, packed message %d octets, %d additional records)", serr, c.Alg, tag, signerText, c.Msg.Compress, len(packed), len(c.Msg.Extra))
 		}
 		// the signed octets are the packed message followed by exactly one SIG record, ARCOUNT + 1
 		stripped, last, mp, werr := ref.StripLast(out)
@@ -321,7 +395,7 @@ func checkSig0(c sigCase) (err error) {
 	if !c.RefSign {
 		// a signer that fails: Sign must say so - whatever Sign reports as signed has to verify
 		fs := &dns.SIG{}
-		fs.KeyTag, fs.SignerName, fs.Algorithm = tag, c.SignerAs, c.Alg
+		fs.KeyTag, fs.SignerName, fs.Algorithm = tag, signerText, c.Alg
 		fs.Inception, fs.Expiration = incep, expir
 		if fout, ferr := fs.Sign(ref.FailingSigner{Pub: pub}, c.Msg.Build()); ferr == nil {
 			if v := ref.Sig0Verify(fout, signerL, c.Alg, pub, now); !v.OK && inWindow {
@@ -359,7 +433,7 @@ func checkSig0(c sigCase) (err error) {
 	}
 	verr := rsig.Verify(k, out)
 	if inWindow && verr != nil {
-		return pbt.Errf("SIG.Verify of the signed message failed: %v (alg %d, %d octets, %d additional records before the SIG, compressed=%v, reference-signed=%v)", verr, c.Alg, len(out), len(c.Msg.Extra), c.Msg.Compress, c.RefSign)
+		return pbt.Errf("SIG.Verify of the signed message failed: %v (alg %d, key tag %d, signer %q, KEY owner written %q, %d octets, %d additional records before the SIG, compressed=%v, reference-signed=%v)", verr, c.Alg, tag, c.SignerAs, keyOwner, len(out), len(c.Msg.Extra), c.Msg.Compress, c.RefSign)
 	}
 	if !inWindow && verr == nil {
 		return pbt.Errf("SIG.Verify accepted a signature whose window [now%+d, now%+d] does not contain now", c.IncOff, c.ExpOff)
@@ -414,6 +488,32 @@ func checkSig0(c sigCase) (err error) {
 		classes = append(classes, "concurrent-verify")
 	}
 
+	// the message lies in memory that cannot be written (a mapped file, a page shared with another
+	// reader): Verify is handed octets to read. A Verify that patches the caller's buffer, even if it
+	// puts the octets back, faults here - on every run, whatever the scheduling (the concurrent calls
+	// above need real overlap to show it)
+	if ro, free, e := readOnlyCopy(out); e == nil {
+		verr := func() (err error) {
+			defer free()
+			defer debug.SetPanicOnFault(debug.SetPanicOnFault(true))
+			defer func() {
+				if r := recover(); r != nil {
+					err = pbt.Errf("SIG.Verify faulted on a message held in read-only memory (it writes into the caller's buffer): %v", r)
+				}
+			}()
+			if e := rsig.Verify(k, ro); e != nil {
+				return pbt.Errf("SIG.Verify of the signed message held in read-only memory failed: %v", e)
+			}
+			return nil
+		}()
+		if verr != nil {
+			return verr
+		}
+		classes = append(classes, "verify-from-read-only-memory")
+	} else {
+		classes = append(classes, "read-only-memory-unavailable")
+	}
+
 	// (2) only-if
 	// other key, same owner and algorithm
 	otherSeed := append([]byte{0x55}, c.KeySeed...)
@@ -447,6 +547,28 @@ func checkSig0(c sigCase) (err error) {
 			return pbt.Errf("SIG.Verify accepted the message with a KEY owned by %q, signer is %q", otherOwner, c.SignerAs)
 		}
 	}
+	// round 7: the right key material published under a name that is nearly the signer's (one octet
+	// changed, a letter replaced by a character that Unicode - not DNS - folds onto it, a label
+	// boundary moved, an octet added): the names differ on the wire in more than ASCII case
+	for _, alt := range c.OwnerAlts {
+		al, ok := spelledLabels(alt)
+		if !ok || !wm.Name(al).Valid() {
+			continue
+		}
+		if al.EqualFold(signerL) {
+			pbt.Class("near-owner-is-the-signer-after-all(skipped)")
+			continue
+		}
+		ak, _ := keyRR(string(alt), c.Alg, pub)
+		ak.Flags = k.Flags
+		if rsig.Verify(ak, out) == nil {
+			return pbt.Errf("SIG.Verify accepted the message with a KEY owned by %q (labels %q), signer is %q: the names differ on the wire in more than ASCII case", alt, [][]byte(al), c.SignerAs)
+		}
+		pbt.Class("near-owner-refused")
+		if bytes.Contains(alt, []byte("\u212a")) || bytes.Contains(alt, []byte("\u017f")) {
+			pbt.Class("near-owner-unicode-fold-of-k-or-s")
+		}
+	}
 	// a key of another algorithm (and other key material)
 	for _, a := range sigAlgs {
 		if a == c.Alg {
@@ -464,7 +586,7 @@ func checkSig0(c sigCase) (err error) {
 	// the same RSA public key octets published under another RSA algorithm number: a KEY record for
 	// algorithm 8 is not a key for algorithm 5 (RFC 4034 2.1.3; RRSIG.Verify insists on equality)
 	if c.AlgMismatch && pubIsRSA(c.Alg) {
-		for _, a := range []uint8{ref.AlgRSASHA1, ref.AlgRSASHA256, ref.AlgRSASHA512} {
+		for _, a := range rsaAlgs {
 			if a == c.Alg {
 				continue
 			}
@@ -730,8 +852,38 @@ func applyMut(x []byte, m Mut) []byte {
 	return x
 }
 
+// asciiEqualFold: equal as octet strings up to the case of ASCII letters.
+func asciiEqualFold(a, b string) bool {
+	return string(wm.LowerBytes([]byte(a))) == string(wm.LowerBytes([]byte(b)))
+}
+
+// readOnlyCopy returns a copy of b in freshly mapped pages that are then write-protected.
+func readOnlyCopy(b []byte) (ro []byte, free func(), err error) {
+	ps := syscall.Getpagesize()
+	n := (len(b) + ps - 1) / ps * ps
+	mem, err := syscall.Mmap(-1, 0, n, syscall.PROT_READ|syscall.PROT_WRITE, syscall.MAP_ANON|syscall.MAP_PRIVATE)
+	if err != nil {
+		return nil, nil, err
+	}
+	copy(mem, b)
+	if err := syscall.Mprotect(mem, syscall.PROT_READ); err != nil {
+		syscall.Munmap(mem)
+		return nil, nil, err
+	}
+	return mem[:len(b):len(b)], func() { syscall.Munmap(mem) }, nil
+}
+
+func hasRaw8(s string) bool {
+	for i := 0; i < len(s); i++ {
+		if s[i] >= 0x80 {
+			return true
+		}
+	}
+	return false
+}
+
 func pubIsRSA(alg uint8) bool {
-	return alg == ref.AlgRSASHA1 || alg == ref.AlgRSASHA256 || alg == ref.AlgRSASHA512
+	return alg == ref.AlgRSASHA1 || alg == ref.AlgRSASHA1NSEC3 || alg == ref.AlgRSASHA256 || alg == ref.AlgRSASHA512
 }
 
 func sigLen(alg uint8, priv crypto.PrivateKey) int {
@@ -890,12 +1042,33 @@ func genSig0(t *rapid.T) sigCase {
 	if rapid.IntRange(0, 4).Draw(t, "longsigner") == 0 {
 		sno.MaxLabs, sno.MaxLabel, sno.Long = 8, 63, rapid.Bool().Draw(t, "verylong")
 	}
-	sn := gen.Name(t, sno)
+	sn := gen.Name(t, sno).Clone()
+	if len(sn) > 0 && rapid.IntRange(0, 2).Draw(t, "plantks") == 0 {
+		// a letter that Unicode case folding - not DNS - also reaches from a character outside ASCII:
+		// k / K (U+212A KELVIN SIGN) or s / S (U+017F LATIN SMALL LETTER LONG S)
+		l := sn[rapid.IntRange(0, len(sn)-1).Draw(t, "plantl")]
+		l[rapid.IntRange(0, len(l)-1).Draw(t, "planto")] = rapid.SampledFrom([]byte("kKsS")).Draw(t, "plantc")
+	}
 	c.Signer = wm.EscName(sn)
 	c.SignerAs = c.Signer
+	as := sn
 	if rapid.IntRange(0, 2).Draw(t, "sc") == 0 {
-		c.SignerAs = wm.EscName(gen.FlipCase(t, sn))
+		as = gen.FlipCase(t, sn)
+		c.SignerAs = wm.EscName(as)
 	}
+	// round 7: names as a program writes them. The KEY handed to Verify and the SIG handed to Sign are Go
+	// values whose name fields are presentation text; \107ey, \key and key are one name, and an octet
+	// >= 0x80 may stand there raw (UTF-8 / Latin-1 text) - the decoder prints it as \DDD
+	if rapid.IntRange(0, 2).Draw(t, "keyspell") == 0 {
+		c.KeyOwner = []byte(spellRaw(t, sn))
+	}
+	if rapid.IntRange(0, 3).Draw(t, "signerspell") == 0 {
+		c.SignerSpell = []byte(spellRaw(t, as))
+	}
+	for i := 0; i < 3; i++ {
+		c.OwnerAlts = append(c.OwnerAlts, nearOwner(t, sn))
+	}
+	c.TagZero = rapid.IntRange(0, 7).Draw(t, "tagzero") == 0
 	c.IncOff, c.ExpOff = genWindow(t)
 	c.RefSign = rapid.IntRange(0, 3).Draw(t, "refsign") == 0
 	c.Pad = rapid.IntRange(0, 1).Draw(t, "pad") == 0
@@ -906,7 +1079,7 @@ func genSig0(t *rapid.T) sigCase {
 		}
 		c.ShortS = rapid.IntRange(0, 7).Draw(t, "shorts") == 0
 	}
-	if (c.Alg == ref.AlgRSASHA1 || c.Alg == ref.AlgRSASHA256 || c.Alg == ref.AlgRSASHA512) && rapid.IntRange(0, 7).Draw(t, "edgekey") == 0 {
+	if pubIsRSA(c.Alg) && rapid.IntRange(0, 7).Draw(t, "edgekey") == 0 {
 		// keys at the library's bounds: 512-octet modulus, one- and four-octet exponents
 		c.KeySlot = ref.RSAEdgeBase + rapid.IntRange(0, ref.RSAEdgeSize()-1).Draw(t, "edgeslot")
 	}
@@ -933,8 +1106,117 @@ func genSig0(t *rapid.T) sigCase {
 	return c
 }
 
+// spellRaw writes a fully qualified name with generated spelling choices per octet: raw (also for
+// octets >= 0x80), \c or \DDD.
+func spellRaw(t *rapid.T, n wm.Name) string {
+	if len(n) == 0 {
+		return "."
+	}
+	var sb []byte
+	for _, l := range n {
+		sb = append(sb, gen.SpellLabelRaw(t, l)...)
+		sb = append(sb, '.')
+	}
+	return string(sb)
+}
+
+// nearOwner derives from the signer's name the presentation text of a different name that a sloppy
+// comparison would take for it.
+func nearOwner(t *rapid.T, sn wm.Name) []byte {
+	if len(sn) == 0 {
+		return []byte("k.")
+	}
+	n := sn.Clone()
+	kind := rapid.IntRange(0, 7).Draw(t, "nearkind")
+	if kind <= 2 {
+		// a character outside ASCII whose Unicode simple case folding is an ASCII letter, as raw UTF-8
+		type pos struct{ l, o int }
+		var ps []pos
+		for li, l := range n {
+			for oi, b := range l {
+				if b|0x20 == 'k' || b|0x20 == 's' {
+					ps = append(ps, pos{li, oi})
+				}
+			}
+		}
+		if len(ps) > 0 {
+			p := ps[rapid.IntRange(0, len(ps)-1).Draw(t, "nearpos")]
+			var sb []byte
+			for li, l := range n {
+				if li == p.l {
+					sb = append(sb, wm.EscLabel(l[:p.o])...)
+					if l[p.o]|0x20 == 'k' {
+						sb = append(sb, "\u212a"...)
+					} else {
+						sb = append(sb, "\u017f"...)
+					}
+					sb = append(sb, wm.EscLabel(l[p.o+1:])...)
+				} else {
+					sb = append(sb, wm.EscLabel(l)...)
+				}
+				sb = append(sb, '.')
+			}
+			return sb
+		}
+		kind = 3 + kind
+	}
+	li := rapid.IntRange(0, len(n)-1).Draw(t, "nearl")
+	oi := rapid.IntRange(0, len(n[li])-1).Draw(t, "nearo")
+	switch kind {
+	case 3: // the same low seven bits
+		n[li][oi] ^= 0x80
+	case 4: // another octet (never the other case of the same letter: that would differ by 0x20)
+		n[li][oi] ^= 0x40
+	case 5:
+		n[li][oi]++
+	case 6: // a label boundary moved into a label: "a\.b.c." (one label holding a dot) for "a.b.c.", or one label cut in two
+		if li+1 < len(n) && len(n[li])+1+len(n[li+1]) <= 63 {
+			j := append(append(append([]byte(nil), n[li]...), '.'), n[li+1]...)
+			n = append(append(n[:li:li], j), n[li+2:]...)
+		} else if oi+1 < len(n[li]) {
+			n = append(append(n[:li:li], n[li][:oi+1:oi+1], n[li][oi+1:]), n[li+1:]...)
+		} else {
+			n[li][oi] ^= 0x01
+		}
+	default: // one octet more at the end of a label
+		if len(n[li]) < 63 {
+			n[li] = append(n[li], rapid.SampledFrom([]byte{0, ' ', '.', 0xff, 'a'}).Draw(t, "nearadd"))
+		} else {
+			n[li][oi] ^= 0x01
+		}
+	}
+	return []byte(spellRaw(t, n))
+}
+
 // excludeKnown replaces exactly the classes of the confirmed findings while they are live.
 func excludeKnown(c *sigCase) {
+	if pbt.Known(findAlg7) && c.Alg == ref.AlgRSASHA1NSEC3 {
+		// Sign signs with algorithm 7, Verify ends in ErrKeyAlg for it
+		pbt.Excluded(findAlg7)
+		c.Alg = ref.AlgRSASHA1
+	}
+	if pbt.Known(findTag0) {
+		// SIG.Sign / SIG.Verify take key tag 0 for "not set": keys whose tag is 0, by choice of the flags
+		// or by nature, are replaced
+		if c.TagZero {
+			pbt.Excluded(findTag0)
+			c.TagZero = false
+		}
+		for i := 0; i < 4; i++ {
+			if tag, ok := caseKeyTag(*c); !ok || tag != 0 {
+				break
+			}
+			pbt.Excluded(findTag0)
+			c.KeySeed = append(append([]byte(nil), c.KeySeed...), byte(i))
+			c.KeySlot = (c.KeySlot + 1) % ref.RSAPoolSize()
+		}
+	}
+	if pbt.Known(findSpelling) && len(c.KeyOwner) > 0 && !asciiEqualFold(string(c.KeyOwner), c.Signer) {
+		// Verify compares the KEY owner's text with the decoder's spelling of the signer name: every
+		// other spelling of the same name is refused
+		pbt.Excluded(findSpelling)
+		c.KeyOwner = nil
+	}
 	if pbt.Known(findArcount) && len(c.Msg.Extra) >= 256 {
 		// DESIGN §4 #4: Verify rebuilds the original ARCOUNT wrongly once it is >= 256
 		pbt.Excluded(findArcount)
@@ -993,6 +1275,48 @@ func init() {
 		c.Alg, c.AlgMismatch = ref.AlgRSASHA1, true
 		c.Msg = plain(false, 1)
 		return checkSig0(c)
+	})
+	pbt.Probe(findAlg7, func() error {
+		c := base
+		c.Alg = ref.AlgRSASHA1NSEC3
+		c.Msg = plain(false, 1)
+		return checkSig0(c)
+	})
+	pbt.Probe(findTag0, func() error {
+		// an Ed25519 key whose KEY record (flags 0x0200, protocol 3, algorithm 15) has key tag 0 by nature:
+		// public key zGV1UPadtdEvNowiyQebkFNJB+NVp8/yXqAEUt2GK5s= (the 2365th key of a search)
+		c := base
+		c.KeySeed = []byte{0x74, 0x30, 0x00, 0x09, 0x3c}
+		c.Msg = plain(false, 1)
+		if tag, ok := caseKeyTag(c); !ok || tag != 0 {
+			return nil
+		}
+		if err := checkSig0(c); err != nil { // Sign refuses
+			return err
+		}
+		c.RefSign = true // signed by another implementation: Verify refuses
+		if err := checkSig0(c); err != nil {
+			return err
+		}
+		c = base // any key, the flags of its KEY record chosen so that the tag is 0
+		c.Alg, c.TagZero = ref.AlgRSASHA256, true
+		c.Msg = plain(false, 1)
+		return checkSig0(c)
+	})
+	pbt.Probe(findSpelling, func() error {
+		for _, v := range []struct{ signer, owner, spell string }{
+			{"key.example.", `\107ey.example.`, ""},
+			{"key.example.", `\key.example.`, ""},
+			{`caf\233.example.`, "caf\xe9.example.", "caf\xe9.example."}, // the one Go string for SIG.SignerName and for the KEY owner
+		} {
+			c := base
+			c.Signer, c.SignerAs, c.KeyOwner, c.SignerSpell = v.signer, v.signer, []byte(v.owner), []byte(v.spell)
+			c.Msg = plain(false, 1)
+			if err := checkSig0(c); err != nil {
+				return err
+			}
+		}
+		return nil
 	})
 	pbt.Probe(findPadded, func() error {
 		c := base
